@@ -547,6 +547,40 @@ func (r *Run) Main(meta Meta, engines ...Engine) {
 			}
 		}
 	}
+	// regression tier: the scenario of every repaired finding is replayed; a fixed entry suppresses
+	// nothing, so a failure here is reported like any other
+	for _, k := range r.known {
+		if k.Status != "fixed" || len(k.Scenario) == 0 {
+			continue
+		}
+		for _, e := range engines {
+			if e.Name != k.Engine || e.Replay == nil {
+				continue
+			}
+			reps := e.ReplayReps
+			if reps < 1 {
+				reps = 1
+			}
+			wd := r.StartWatchdog(e.Name, 0, 60*time.Second)
+			for i := 0; i < reps; i++ {
+				wd.Enter(json.RawMessage(k.Scenario))
+				r.SetCurrent(e.Name, 0, json.RawMessage(k.Scenario))
+				f := e.Replay(k.Scenario)
+				wd.Leave()
+				r.ClearCurrent(0)
+				if f != nil {
+					f.Engine = e.Name
+					var sc any
+					_ = json.Unmarshal(k.Scenario, &sc)
+					f.Scenario = sc
+					r.Fail(f)
+					break
+				}
+			}
+			wd.Stop()
+			r.Class("regression/replayed", 1)
+		}
+	}
 	for _, e := range engines {
 		if *fOnly != "" && !strings.HasPrefix(e.Name, *fOnly) {
 			continue
